@@ -122,8 +122,13 @@ def main(tier: str) -> int:
             S = np.array([rng.choice([top, top * 0.875, top * 0.5, 1.0 / str_len, top * 0.25]) for _ in range(n)], dtype=np.float64)
             dfv = np.array([rng.choice([0.25, 1.0, 2.0, 7.0, 0.0]) for _ in range(n)], dtype=np.float64)
             u = rng.choice([1.0 / str_len, top * 0.75])
-            with np.errstate(all="ignore"):
-                got = float(so._update_u(u, S, dfv))
+            try:
+                with np.errstate(all="ignore"):
+                    got = float(so._update_u(u, S, dfv))
+            except Exception as e:  # noqa
+                chk.fail("SHAGA's memory update raises", {"call": "SHAGA._update_u", "str_len": str_len, "u": u, "S": S.tolist(), "df": dfv.tolist(), "error": repr(e)[:160]},
+                         {"optimizer": "SHAGA", "clause": "raises"})
+                continue
             Sf, dff = [Fraction(float(v)) for v in S], [Fraction(float(v)) for v in dfv]
             if n and sum(dff) > 0:
                 den = sum(w * v for w, v in zip(dff, Sf))
